@@ -35,7 +35,7 @@ def main():
             continue
         r = sh(f"git -C /repo apply {d}/patch.diff")
         if r.returncode:
-            rows.append((pid, k, "patch-does-not-apply", "")); sh("git -C /repo checkout -- ."); continue
+            rows.append((pid, k, "patch-does-not-apply", "")); sh("git -C /repo checkout -- . && git -C /repo clean -fdq -- acnportal"); continue
         try:
             res = {}
             for p in (claimed if allp else [pid]):
@@ -46,7 +46,7 @@ def main():
                 errs = re.findall(r"^ANALYSIS-ERROR.*$", c.stdout, re.M)
                 res[p] = (c.returncode, rules or [e[:120] for e in errs])
         finally:
-            sh("git -C /repo checkout -- .")
+            sh("git -C /repo checkout -- . && git -C /repo clean -fdq -- acnportal")
         own = res.get(pid)
         others = {p: v for p, v in res.items() if p != pid and v[0] not in (0, "unclaimed")}
         rows.append((pid, k, own, others))
